@@ -466,3 +466,159 @@ def ts_to_dt_post(prop, variant):
 def ts_to_dt_units(prop):
     return [Unit(f'{prop}.metadata_ts_to_dt[{v}]', REPO_PY, 'Repository._metadata_ts_to_dt', ts_to_dt_setup(v), ts_to_dt_post(prop, v), prop=prop)
             for v in ('new', 'old')]
+
+
+# ---- the constructor each concrete AEAD cipher class really runs: key and nonce sizes of the object ARE the configured ones -------------
+# ciphers whose sizes are fixed by their standard (RFC 8439), not by parameters
+FIXED_AEAD_SIZES = {'chacha20_poly1305': (256, 96)}
+
+
+def aead_ctor_setup_for(cls):
+    def setup(b):
+        dotted = source.resolve_method(ADAPTERS_PY, cls, '__init__')
+        node = source.select(ADAPTERS_PY, dotted)
+        params = [a.arg for a in node.args.kwonlyargs + node.args.args[1:]]
+        b.params = {}
+        for name in params:
+            v = b.sym(name, INT)
+            b.params[name] = v
+        from vf.interp import Closure
+
+        class Self(Obj):
+            """`self` under construction: attribute stores are recorded in ghost state; reads see this path's stores, then the class
+            attributes of the REAL class along its MRO, then its real methods"""
+            _is_settable = True
+
+            def vf_getattr(me, interp, st, name):
+                if ('attr', name) in st.ghost:
+                    yield st, st.ghost[('attr', name)]
+                    return
+                for c in source.class_mro(ADAPTERS_PY, cls):
+                    try:
+                        val = source.class_attr(ADAPTERS_PY, c, name)
+                    except source.SelectorError:
+                        continue
+                    import ast as _ast
+                    if isinstance(val, _ast.Constant):
+                        yield st, val.value
+                        return
+                    raise sym.Unsupported(f'class attribute {c}.{name} is not a constant')
+                d = source.resolve_method(ADAPTERS_PY, cls, name)
+                if d:
+                    yield st, Closure(source.select(ADAPTERS_PY, d), 0, name, bound_self=me)
+                    return
+                raise sym.Unsupported(f'self.{name} read before assignment')
+
+        me = Self('self')
+        b.me = me
+        b.bind('self', me)
+        mro = source.class_mro(ADAPTERS_PY, cls)
+        start = dotted.split('.')[0]
+
+        def super_(interp, st, a, kw):
+            # zero-argument super() inside `start.__init__`: the next class of cls' MRO that defines __init__
+            for c in mro[mro.index(start) + 1:]:
+                try:
+                    n = source.select(ADAPTERS_PY, f'{c}.__init__')
+                except source.SelectorError:
+                    continue
+                st.emit('super_init', cls=c)
+                yield st, Obj('super', __init__=Closure(n, 0, '__init__', bound_self=me))
+                return
+            yield st, Obj('super', __init__=Model('object.__init__', lambda i, s, a2, k2: iter([(s, None)])))
+
+        b.bind('super', Model('super', super_))
+    return setup
+
+
+def _aead_setattr_hook():
+    orig = ops.setattr_
+
+    def setattr_(interp, st, o, name, v):
+        if getattr(o, '_is_settable', False):
+            st.ghost[('attr', name)] = v
+            st.emit('setattr', name=name, value=v)
+            return
+        return orig(interp, st, o, name, v)
+    ops.setattr_ = setattr_
+
+
+_aead_setattr_hook()
+
+
+def aead_ctor_post(prop, cls):
+    def post(res):
+        b = res.builder
+        for p in res.paths:
+            if p.kind not in ('return', 'normal'):
+                continue                  # rejected parameters: C17's concern
+            if 'key_bits' in b.params and 'nonce_bits' in b.params:
+                kb, nb = b.params['key_bits'].z, b.params['nonce_bits'].z
+            elif cls in FIXED_AEAD_SIZES and not b.params:
+                kb, nb = (z3.IntVal(x) for x in FIXED_AEAD_SIZES[cls])
+            else:
+                raise sym.Unsupported(f'no documented key/nonce size source for cipher class {cls}')
+            got_k, got_n = p.st.ghost.get(('attr', '_key_bytes')), p.st.ghost.get(('attr', '_nonce_bytes'))
+            ok = got_k is not None and got_n is not None
+            # the object encrypts with keys of key_bits/8 bytes and prefixes nonces of nonce_bits/8 bytes: the sizes the stored config
+            # states (what an independent reader of the format splits each object by)
+            res.oblige(p, f'{prop}.aead_ctor[{cls}].sizes_are_the_configured_ones', z3.BoolVal(False) if not ok else z3.And(
+                sym.lift(got_k, INT).z == kb / 8, sym.lift(got_n, INT).z == nb / 8))
+    return post
+
+
+def aead_dec_setup_for(cls):
+    inner = aead_setup_for(cls)
+
+    def setup(b):
+        inner(b)
+
+        def dec(interp, st, args, kwargs):
+            _, nonce, data, aad = args
+            st.emit('aead_decrypt', cipher=args[0], nonce=nonce, data=data, aad=aad)
+            bad = st.copy()
+            yield bad, Raised(Exc('InvalidTag'))
+            yield st, SV(BYTES, UF('aead_dec', AEADOBJ, BYTES, BYTES, BYTES)(args[0].z, sym.lift(nonce, BYTES).z, sym.lift(data, BYTES).z))
+
+        AEADOBJ.attrs = dict(AEADOBJ.attrs, decrypt=MethodModel('decrypt', dec))
+        b.bind('exceptions', shared.EXCEPTIONS)
+        b.bind('InvalidTag', __import__('vf.interp', fromlist=['ExcClass']).ExcClass('InvalidTag'))
+        b.assume(z3.Length(b.st.lookup('data').z) >= b.nb.z)
+    return setup
+
+
+def aead_dec_post(prop, cls):
+    def post(res):
+        b = res.builder
+        data, key = b.st.lookup('data').z, b.st.lookup('key').z
+        for p in res.paths:
+            de = p.events('aead_decrypt')
+            ok = len(de) == 1
+            res.oblige(p, f'{prop}.aead_decrypt[{cls}].one_authenticated_decryption', z3.BoolVal(ok))
+            if not ok:
+                continue
+            e = de[0]
+            # the stored form is split where encrypt joined it: the first _nonce_bytes bytes are the nonce, the rest the ciphertext,
+            # under the cipher of the given key, no associated data
+            res.oblige(p.pc_at(e), f'{prop}.aead_decrypt[{cls}].splits_at_the_configured_nonce_length', z3.And(
+                sym.lift(e.data['nonce'], BYTES).z == z3.SubString(data, 0, b.nb.z),
+                sym.lift(e.data['data'], BYTES).z == z3.SubString(data, b.nb.z, z3.Length(data) - b.nb.z),
+                e.data['cipher'].z == UF('aead_of_key', BYTES, AEADOBJ)(key),
+                z3.BoolVal(e.data['aad'] is None)))
+            if p.kind == 'raise':
+                # a failed tag is the user-facing DecryptionError (what unlock/restore turn into their messages), nothing else escapes
+                res.oblige(p, f'{prop}.aead_decrypt[{cls}].bad_tag_is_a_decryption_error', z3.BoolVal(p.value.cls == 'DecryptionError'))
+            else:
+                res.oblige(p, f'{prop}.aead_decrypt[{cls}].returns_the_authenticated_plaintext', z3.BoolVal(p.kind == 'return') if p.kind != 'return' else
+                           sym.lift(p.value, BYTES).z == UF('aead_dec', AEADOBJ, BYTES, BYTES, BYTES)(e.data['cipher'].z, sym.lift(e.data['nonce'], BYTES).z, sym.lift(e.data['data'], BYTES).z))
+    return post
+
+
+def aead_ctor_units(prop):
+    out = []
+    for cls in source.subclasses(ADAPTERS_PY, 'AEADCipherAdapterMixin'):
+        out.append(Unit(f'{prop}.aead_ctor[{cls}]', ADAPTERS_PY, source.resolve_method(ADAPTERS_PY, cls, '__init__'),
+                        aead_ctor_setup_for(cls), aead_ctor_post(prop, cls), prop=prop))
+        out.append(Unit(f'{prop}.aead_decrypt[{cls}]', ADAPTERS_PY, source.resolve_method(ADAPTERS_PY, cls, 'decrypt'),
+                        aead_dec_setup_for(cls), aead_dec_post(prop, cls), prop=prop))
+    return out
